@@ -166,6 +166,7 @@ PROPS = {
               dict(how="conc", cfg="Gen_Conc3", simulate=20000, tier="thorough"),
               dict(how="conc_rand", count=600, tier="quick"), dict(how="conc_rand", count=20000, tier="thorough")],
         tv_props=["C18", "DRIFT"],
+        conformance=True,
         mc=[dict(module="MC_Conc.tla", cfg="MC_Conc_2x2"), dict(module="MC_Conc.tla", cfg="MC_Conc_3x1"),
             dict(module="MC_Conc.tla", cfg="MC_Conc_bug_insert", expect="WriteOnce")],
         must_fire=["C18.answer_is_sequential", "C18.cached_value_never_replaced", "C18.no_deadlock"],
